@@ -672,7 +672,7 @@ def ref_leb(n, signed):
 def sleb_part(run, quick):
     """write_sleb128 / read_sleb128 against the Gallina codec Amoco.C16.Sleb (round trip and shortest encoding proved there):
     values around every septet boundary +-2^(7k-1), +-2^(7k) (k = 1..9), small values and random ones, decoded with tails"""
-    from amoco.system.structs.utils import write_sleb128, read_sleb128
+    from amoco.system.structs.utils import write_sleb128, read_sleb128, read_leb128
     rng = random.Random(run.seed * 271 + 5)
     vals = set(range(-130, 131))
     for k in range(1, 10):
@@ -688,6 +688,11 @@ def sleb_part(run, quick):
             bs = bytes(write_sleb128(v))
             tail = bytes(rng.getrandbits(8) for _ in range(rng.choice([0, 1, 3])))
             rv, rc = read_sleb128(bs + tail)
+            pre = bytes(rng.getrandbits(8) | rng.choice([0, 0x80]) for _ in range(rng.choice([0, 1, 2, 5])))
+            ov = read_leb128(pre + bs + tail, -1, len(pre))
+            if tuple(ov) != (rv, rc):
+                run.violation("sleb128-offset", "read_leb128(data, -1, offset) differs from read_sleb128(data[offset:]) on %d" % v,
+                              {"value": v, "prefix": pre.hex(), "bytes": (bs + tail).hex(), "with_offset": list(ov), "sliced": [rv, rc]})
         except Exception as x:
             run.violation("sleb128-raised|" + type(x).__name__, "write_sleb128 / read_sleb128 raised %r on %d" % (x, v), {"value": v, "error": repr(x)[:200]})
             continue
@@ -716,7 +721,7 @@ def sleb_part(run, quick):
 def uleb_part(run, quick):
     """write_uleb128 / read_uleb128 against the Gallina codec Amoco.C16.Uleb (round trip, shortest encoding and no redundant
     final group proved there): values around every septet boundary 2^(7k) (k = 1..9), small values and random ones, with tails"""
-    from amoco.system.structs.utils import write_uleb128, read_uleb128
+    from amoco.system.structs.utils import write_uleb128, read_uleb128, read_leb128
     rng = random.Random(run.seed * 277 + 11)
     vals = set(range(0, 300))
     for k in range(1, 10):
@@ -731,6 +736,11 @@ def uleb_part(run, quick):
             bs = bytes(write_uleb128(v))
             tail = bytes(rng.getrandbits(8) for _ in range(rng.choice([0, 1, 3])))
             rv, rc = read_uleb128(bs + tail)
+            pre = bytes(rng.getrandbits(8) | rng.choice([0, 0x80]) for _ in range(rng.choice([0, 1, 2, 5])))
+            ov = read_leb128(pre + bs + tail, 1, len(pre))     # the form the wasm / dwarf operand decoders use (amoco.system.utils re-exports it)
+            if tuple(ov) != (rv, rc):
+                run.violation("uleb128-offset", "read_leb128(data, 1, offset) differs from read_uleb128(data[offset:]) on %d" % v,
+                              {"value": v, "prefix": pre.hex(), "bytes": (bs + tail).hex(), "with_offset": list(ov), "sliced": [rv, rc]})
         except Exception as x:
             run.violation("uleb128-raised|" + type(x).__name__, "write_uleb128 / read_uleb128 raised %r on %d" % (x, v), {"value": v, "error": repr(x)[:200]})
             continue
